@@ -136,6 +136,13 @@ inductive Input where
   | path (p : String)
   deriving Repr
 
+/-- `lex_tokens(line)`: an escape unicode_escape rejects in an `error` / `string` line is an
+    AssemblerError on that line (fix b49f1cd) -/
+def lexLine (l : Line) : Except Err (List String) :=
+  match lexTokens l.contents.toList with
+  | .ok t => .ok t
+  | .error e => if e = .internal "UnicodeDecodeError" then .error (.asm l) else .error e
+
 /-- read + lex + parse (asm.py:3365-3372) -/
 def frontEnd (fs : FS) (cwd : String) (includeDirs : List String) (input : Input) : Except Err (List Item) := do
   if !normAbs cwd then throw (.unsupported "cwd form")
@@ -158,7 +165,7 @@ def frontEnd (fs : FS) (cwd : String) (includeDirs : List String) (input : Input
   let rec lexAll : List Line → Except Err (List (Line × List String))
     | [] => .ok []
     | l :: rest => do
-      let toks ← lexTokens l.contents.toList
+      let toks ← lexLine l
       let more ← lexAll rest
       pure (if toks.isEmpty then more else (l, toks) :: more)
   -- items = [parse_item(t) for t in tokens]
